@@ -108,8 +108,14 @@ func qualifyD(p *ProgD, m string) string {
 	return ss[len(ss)-1].Name + "." + m
 }
 
+// variant of the -m code paths the implementation has (see `probe`): three flags, "000" = before the repairs
+var variant = "000"
+
 func cfgVL(p *ProgD, c *CfgD) (string, error) {
 	e := &enc{}
+	for _, ch := range variant {
+		e.b(ch == '1')
+	}
 	e.b(c.Preserve != nil && !*c.Preserve)
 	e.b(c.DisableComment != nil && *c.DisableComment)
 	e.n(len(c.PreservedStructs))
@@ -753,6 +759,7 @@ func run(repo, dir string, seed uint64, tier, trimmerBin, thriftgoBin string) er
 		return err
 	}
 	out := vl.NewOut(dir)
+	out.Count("variant:" + variant)
 	// vl.NewRng(s) and vl.NewRng(s+1) produce the same stream shifted by one draw: decorrelate the seeds
 	z := (seed + 0x632BE59BD9B4E019) * 0xD6E8FEB86659FD93
 	z ^= z >> 32
@@ -764,6 +771,19 @@ func run(repo, dir string, seed uint64, tier, trimmerBin, thriftgoBin string) er
 		n = 5000
 	}
 	perClass := map[string][]vl.OracleFail{}
+	// the corpus of past failures and seeded shapes runs first
+	for _, cc := range corpus() {
+		cs := cc.c.clone()
+		res := check(cs)
+		out.Count("corpus:" + cc.name)
+		if res.op != "" {
+			out.Case(res.op, res.impl, true)
+		}
+		for j, f := range res.fails {
+			out.Count("oracle-fail:" + res.classes[j])
+			out.Fail(f)
+		}
+	}
 	attempts := map[string]int{}
 	var classOrder []string
 	var progs []*ProgD
@@ -956,13 +976,31 @@ func main() {
 	file := flag.String("file", "", "")
 	trimmerBin := flag.String("trimmer", "", "")
 	thriftgoBin := flag.String("thriftgo", "", "")
+	variantFlag := flag.String("variant", "", "")
 	if len(os.Args) < 2 {
 		fmt.Fprintln(os.Stderr, "usage: c16 run|replay [flags]")
 		os.Exit(3)
 	}
 	flag.CommandLine.Parse(os.Args[2:])
 	var err error
+	if *variantFlag != "" {
+		variant = *variantFlag
+	} else if os.Args[1] != "probe" {
+		func() {
+			d, _ := os.MkdirTemp("", "c16probe")
+			defer os.RemoveAll(d)
+			wd, _ := os.Getwd()
+			os.Chdir(d)
+			defer os.Chdir(wd)
+			variant = probe()
+		}()
+	}
 	switch os.Args[1] {
+	case "probe":
+		d, _ := os.MkdirTemp("", "c16probe")
+		defer os.RemoveAll(d)
+		os.Chdir(d)
+		fmt.Println(probe())
 	case "run":
 		var abs string
 		abs, err = filepath.Abs(*dir)
